@@ -69,6 +69,7 @@ type c6Run struct {
 	samplerN  []uint32
 	samplerOf []int             // per logger index: sampler index or -1
 	ctxs      []context.Context // per logger index: a context carrying it, shared by the tasks
+	taskOf    map[int]int       // simulator task id -> index of the logging task
 }
 
 type c6Sink struct {
@@ -310,6 +311,31 @@ func (r *c6Run) buildDest() io.Writer {
 		return &zerolog.TriggerLevelWriter{Writer: b, ConditionalLevel: zerolog.Level(-128), TriggerLevel: zerolog.Level(-128)}
 	case 10:
 		return &zerolog.FilteredLevelWriter{Writer: b, Level: zerolog.DebugLevel}
+	case 13:
+		// a ConsoleWriter whose user-supplied formatters refuse some events (by their id):
+		// a refused event is not written, and nothing of it may show in another event
+		refuse := func(evt map[string]interface{}, k uint64) bool {
+			id, _ := evt["id"].(string)
+			return id != "" && fnv([]byte(id))%4 == k
+		}
+		return zerolog.ConsoleWriter{Out: a, NoColor: true, TimeFormat: time.RFC3339,
+			FormatPrepare: func(evt map[string]interface{}) error {
+				zsim.Yield("FormatPrepare")
+				if refuse(evt, 0) {
+					zsim.Probe("console_formatter_refuses")
+					return errors.New("FormatPrepare refuses this event")
+				}
+				return nil
+			},
+			FormatExtra: func(evt map[string]interface{}, buf *bytes.Buffer) error {
+				zsim.Yield("FormatExtra")
+				if refuse(evt, 1) {
+					zsim.Probe("console_formatter_refuses")
+					return errors.New("FormatExtra refuses this event")
+				}
+				buf.WriteString(" extra")
+				return nil
+			}}
 	case 8:
 		return zerolog.NewConsoleWriter(func(w *zerolog.ConsoleWriter) {
 			w.Out = a
@@ -479,7 +505,7 @@ func (r *c6Run) runEntry(c *c6Chain, seq int) {
 }
 
 func (c06World) Run(prop string, ch *zsim.Choices, trace bool) *RunResult {
-	r := &c6Run{ch: ch, cur: map[int]*c6Chain{}, lastSeq: map[[2]int]int{}}
+	r := &c6Run{ch: ch, cur: map[int]*c6Chain{}, lastSeq: map[[2]int]int{}, taskOf: map[int]int{}}
 	oldTS, oldEH, oldSM := zerolog.TimestampFunc, zerolog.ErrorHandler, zerolog.ErrorStackMarshaler
 	oldG := zlog.Logger
 	defer func() {
@@ -493,12 +519,25 @@ func (c06World) Run(prop string, ch *zsim.Choices, trace bool) *RunResult {
 		s := zsim.S
 		zerolog.SetGlobalLevel(zerolog.TraceLevel)
 		zerolog.DisableSampling(false)
-		zerolog.TimestampFunc = func() time.Time { return refTime }
+		// every logging task has its own clock reading (the same when its chains are run alone):
+		// anything remembered between the timestamps of two tasks shows
+		zerolog.TimestampFunc = func() time.Time {
+			t := -1
+			if r.solo != nil {
+				t = r.solo.task
+			} else if v, ok := r.taskOf[zsim.CurID()]; ok {
+				t = v
+			}
+			if t < 0 {
+				return refTime
+			}
+			return refTime.Add(time.Duration(t) * time.Second)
+		}
 		zerolog.ErrorHandler = func(err error) { r.errCalls++ }
 		zerolog.ErrorStackMarshaler = func(err error) interface{} { return "STACK" }
 		r.sinks[0] = &c6Sink{r: r, idx: 0}
 		r.sinks[1] = &c6Sink{r: r, idx: 1}
-		r.dest = ch.Weighted(4, 3, 2, 2, 1, 1, 1, 2, 2, 1, 1, 1, 1)
+		r.dest = ch.Weighted(4, 3, 2, 2, 1, 1, 1, 2, 2, 1, 1, 1, 1, 1)
 		r.sinkBeh = ch.Weighted(4, 2, 2)
 		// logger derivations are drawn once and built twice: one set of loggers and
 		// destination wrappers for the reference (solo) runs, a fresh identical set
@@ -663,7 +702,9 @@ func (c06World) Run(prop string, ch *zsim.Choices, trace bool) *RunResult {
 		for t := 0; t < r.nTasks; t++ {
 			cs := r.chains[t]
 			pairs := ch.Chance(1, 3)
+			t := t
 			tasks = append(tasks, zsim.Spawn(fmt.Sprintf("log%d", t), func() {
+				r.taskOf[zsim.CurID()] = t
 				seq := 0
 				for i := 0; i < len(cs); i++ {
 					if pairs && i+1 < len(cs) && cs[i].entry == 0 && cs[i+1].entry == 0 && cs[i].panicOn < 0 && cs[i+1].panicOn < 0 {
